@@ -4,19 +4,25 @@ use serde::{de::DeserializeOwned, Serialize};
 
 pub mod c01;
 pub mod c02;
+pub mod c04;
 #[cfg(feature = "sched")]
 pub mod c14;
 #[cfg(feature = "sched")]
 pub mod c15;
+#[cfg(feature = "sched")]
+pub mod c16;
 
 pub fn run(id: &str, o: &Opts, stats: &mut Stats) -> Option<usize> {
     match id {
         "C01" => c01::run(o, stats),
         "C02" => c02::run(o, stats),
+        "C04" => c04::run(o, stats),
         #[cfg(feature = "sched")]
         "C14" => c14::run(o, stats),
         #[cfg(feature = "sched")]
         "C15" => c15::run(o, stats),
+        #[cfg(feature = "sched")]
+        "C16" => c16::run(o, stats),
         _ => {
             eprintln!("unknown property {}", id);
             std::process::exit(2)
